@@ -670,6 +670,7 @@ class PlainQuantity(Generic[MagnitudeT], PrettyIPython, SharedRegistryObject):
             op == operator.isub
             and len(self_non_mul_units) == 1
             and self._units[self_non_mul_unit] == 1
+            and not self._get_unit_definition(self_non_mul_unit).is_logarithmic
             and not other._has_compatible_delta(self_non_mul_unit)
         ):
             if self._units == other._units:
@@ -684,6 +685,7 @@ class PlainQuantity(Generic[MagnitudeT], PrettyIPython, SharedRegistryObject):
             op == operator.isub
             and len(other_non_mul_units) == 1
             and other._units[other_non_mul_unit] == 1
+            and not other._get_unit_definition(other_non_mul_unit).is_logarithmic
             and not self._has_compatible_delta(other_non_mul_unit)
         ):
             # we convert to self directly since it is multiplicative
@@ -783,6 +785,7 @@ class PlainQuantity(Generic[MagnitudeT], PrettyIPython, SharedRegistryObject):
             op == operator.sub
             and len(self_non_mul_units) == 1
             and self._units[self_non_mul_unit] == 1
+            and not self._get_unit_definition(self_non_mul_unit).is_logarithmic
             and not other._has_compatible_delta(self_non_mul_unit)
         ):
             if self._units == other._units:
@@ -795,6 +798,7 @@ class PlainQuantity(Generic[MagnitudeT], PrettyIPython, SharedRegistryObject):
             op == operator.sub
             and len(other_non_mul_units) == 1
             and other._units[other_non_mul_unit] == 1
+            and not other._get_unit_definition(other_non_mul_unit).is_logarithmic
             and not self._has_compatible_delta(other_non_mul_unit)
         ):
             # we convert to self directly since it is multiplicative
